@@ -2734,6 +2734,81 @@ def rule_A_ZSTREAM(ctx, repo):
                                  'block is fed at the wrong stream position, and an entry whose compressed form is longer than one block cannot be read back'
                                  % (fn.name, x.func.value.id, ', '.join(unparse(a)[:20] for a in x.args)), '%s:%d' % (m.rel, x.lineno))
     ctx.ob('A-CODEC', 'streaming decompress calls examined (none today: read_zfile decompresses in one shot)', True, n=max(n, 1))
+    # ... and the reader refuses nothing the writer accepted: no raise / assert on the read path of klepto/_pickle.py is conditioned on a caller-supplied
+    # option (a parameter with a default - a size limit, a strictness flag - or an attribute a constructor filled from one).  The writer has no such
+    # limit, dir_archive turns every read failure into KeyError, and the wrappers take KeyError for "not archived": an entry over the limit is stored
+    # without complaint and can never be read back
+    m = repo.mod('_pickle')
+    funcs = {}
+    classes = {}
+    for x in ast.walk(m.tree):
+        if isinstance(x, ast.ClassDef):
+            classes[x.name] = x
+    for x in ast.walk(m.tree):
+        if isinstance(x, ast.FunctionDef):
+            funcs.setdefault(x.name, []).append(x)
+    if 'load' not in funcs:
+        raise AnalysisError('anchor vanished: klepto/_pickle.py::load')
+    reach, todo = set(), list(funcs['load']) + list(funcs.get('read_zfile', []))
+    while todo:
+        fn = todo.pop()
+        if id(fn) in reach:
+            continue
+        reach.add(id(fn))
+        for c in ast.walk(fn):
+            if isinstance(c, ast.Call):
+                nm = c.func.attr if isinstance(c.func, ast.Attribute) else c.func.id if isinstance(c.func, ast.Name) else None
+                if nm in classes:
+                    todo.extend(y for y in ast.walk(classes[nm]) if isinstance(y, ast.FunctionDef))
+                    for b in classes[nm].bases:
+                        if isinstance(b, ast.Name) and b.id in classes:
+                            todo.extend(y for y in ast.walk(classes[b.id]) if isinstance(y, ast.FunctionDef))
+                elif nm in funcs and nm not in ('dump',):
+                    todo.extend(funcs[nm])
+    opt_attrs = set()
+    readers = [fn for fl in funcs.values() for fn in fl if id(fn) in reach]
+    for fn in readers:
+        a = fn.args
+        opts = set(x.arg for x in a.args[len(a.args) - len(a.defaults):]) | set(x.arg for x, d in zip(a.kwonlyargs, a.kw_defaults) if d is not None)
+        for x in ast.walk(fn):
+            if isinstance(x, ast.Assign) and isinstance(x.value, ast.Name) and x.value.id in opts:
+                for t in x.targets:
+                    if isinstance(t, ast.Attribute) and isinstance(t.value, ast.Name) and t.value.id == 'self':
+                        opt_attrs.add(t.attr)
+    nr = 0
+    for fn in readers:
+        a = fn.args
+        opts = set(x.arg for x in a.args[len(a.args) - len(a.defaults):]) | set(x.arg for x, d in zip(a.kwonlyargs, a.kw_defaults) if d is not None)
+        opts -= set(['mmap_mode'])       # where the data is mapped, not whether it is accepted
+        parent = {}
+        for x in ast.walk(fn):
+            for c in ast.iter_child_nodes(x):
+                parent[c] = x
+        for x in ast.walk(fn):
+            if not isinstance(x, (ast.Raise, ast.Assert)):
+                continue
+            nr += 1
+            tests = [x.test] if isinstance(x, ast.Assert) else []
+            cur = x
+            while cur in parent and cur is not fn:
+                p_ = parent[cur]
+                if isinstance(p_, ast.If) and cur is not p_.test:
+                    tests.append(p_.test)
+                cur = p_
+            hit = None
+            for t in tests:
+                for y in ast.walk(t):
+                    if (isinstance(y, ast.Name) and y.id in opts) or (isinstance(y, ast.Attribute) and isinstance(y.value, ast.Name) and y.value.id == 'self' and y.attr in opt_attrs):
+                        # ... in a comparison of magnitudes (a limit), not a mere presence test
+                        if any(isinstance(c, ast.Compare) and any(isinstance(o, (ast.Gt, ast.GtE, ast.Lt, ast.LtE)) for o in c.ops) and any(z is y for z in ast.walk(c)) for c in ast.walk(t)):
+                            hit = y
+            ctx.ob('A-CODEC', '%s::%s line %d: the reader\'s refusal does not hang on a caller-supplied limit' % (m.rel, fn.name, x.lineno), hit is None)
+            if hit is not None:
+                ctx.fail('A-CODEC', '%s::%s' % (m.rel, fn.name), 'reader-side limit %s' % unparse(hit),
+                         '%s refuses what it reads when it exceeds `%s`, an option of the reader that the writer does not apply: an entry over the limit is written without '
+                         'complaint, the refusal is turned into KeyError by dir_archive._lookup and taken for "not archived" by cache.load - the stored result can never '
+                         'be read back and is recomputed by every call and every later session' % (fn.name, unparse(hit)), '%s:%d' % (m.rel, x.lineno))
+    ctx.ob('A-CODEC', 'raise / assert statements on the read path of klepto/_pickle.py examined', True, n=max(nr, 1))
 
 
 def rule_A_PATHNORM(ctx, repo):
